@@ -27,12 +27,14 @@ open AgModel.Blockstore AgModel.Merkle HBlock
     the block was announced (`Block` event to Votor and `pool.add_block(id, parent)`) in exactly the step
     that completed it, and no step panicked.
 
-    `Admissible` (see `Proofs/RepairRun.lean`) now only says that the responder did not flip the
-    unauthenticated data/coding tag of a shred that passes every check (D15b; necessary: `derail_by_tag`
-    below), plus two typing constraints of the model's response type (`padding_leaf_witness`,
-    `size_class_witness`). Since fix D26 it says nothing about the last-slice marker any more: the hostile
-    schedule that used to derail the repair is admissible (`evilLast_admissible`) and covered by this
-    theorem (`last_marker_no_longer_derails`). -/
+    `Admissible` (see `Proofs/RepairRun.lean`) is no longer an assumption about responders at all: it only
+    holds the two typing constraints of the model's response type (`padding_leaf_witness`,
+    `size_class_witness`). Since fix D26 it says nothing about the last-slice marker (`evilLast_admissible`,
+    `last_marker_no_longer_derails`), and since fix D15b nothing about the unauthenticated data/coding type
+    either: a response with a flipped type is admissible (`evilTag_admissible`), the requester drops it and
+    keeps the request outstanding, so the hostile schedule that used to derail the repair (`derail_by_tag`,
+    now the pinned-definition witness `derail_by_tag_old`) is covered by this theorem
+    (`tag_no_longer_derails`). -/
 theorem repair_completes (B : HBlock) (env : Nat → Content) (cap : Nat) (hwf : B.WF env cap)
     (hroots : ∀ i, i < B.n → B.root i ≠ 0)
     (sdH : SlotData) (_hH : Holds B cap sdH)
@@ -129,7 +131,8 @@ theorem repaired_node_holds (B : HBlock) (cap : Nat) (σ : Sys) (hinv : RepInv B
     request whose `(last, root, proof)` passes `check_proof_last` against `b`'s hash; for every slice
     `i ≤ last` the answer to `SliceRoot(b, i)` passes `check_proof` against the hash, and the answer to
     `Shred(b, i, j)` for each of the 64 indices is a (leader-signed) shred of slot `b.slot`, slice `i`,
-    index `j`, carrying exactly the slice root that was proven and the last-slice flag `i = last` — i.e.
+    index `j`, carrying exactly the slice root that was proven, the last-slice flag `i = last` and the data/coding
+    type that fits its index (`TyInv`: since the D15 fix nothing else is ever stored) — i.e.
     it passes every check of `handle_response` (`Valid`, including the flag comparison of fix D26) at a
     requester that recorded that root and that last slice index. This holds for every held block, also
     one of a Byzantine leader: a node only ever stores shreds whose flag agrees with its last-slice marker
@@ -141,7 +144,7 @@ theorem responder_answers_verify (sd : SlotData) (b : Bid) (blk : Block) (hs : S
       ∀ i, i ≤ l → ∃ root π, answer sd (.root b i) = some (.sliceRoot (.root b i) root π) ∧
         checkProof root i b.hash π = true ∧
         ∀ j, j < TOTAL_SHREDS → ∃ s, answer sd (.shred b i j) = some (.shred (.shred b i j) b.slot s true) ∧
-          s.slice = i ∧ s.idx = j ∧ s.root = root ∧ s.isLast = decide (i = l) ∧
+          s.slice = i ∧ s.idx = j ∧ s.root = root ∧ s.isLast = decide (i = l) ∧ s.ty = true ∧
           ∀ st : RepairSt, rootGet st.sliceRoots (b, i) = some root → lastGet st.lastSlices b = some l →
             Valid st (.shred (.shred b i j) b.slot s true) := by
   obtain ⟨l, h1, h2⟩ := answer_held_verifies sd b blk hs hcap hheld
@@ -150,8 +153,8 @@ theorem responder_answers_verify (sd : SlotData) (b : Bid) (blk : Block) (hs : S
   obtain ⟨root, π, a1, a2, a3⟩ := h2 i hi
   refine ⟨root, π, a1, a2, ?_⟩
   intro j hj
-  obtain ⟨s, s1, s2, s3, s4, s5⟩ := a3 j hj
-  refine ⟨s, s1, s2, s3, s4, s5, fun st hst hlst => ⟨rfl, s2, s3, by rw [hst, s4], ?_, rfl⟩⟩
+  obtain ⟨s, s1, s2, s3, s4, s5, s6⟩ := a3 j hj
+  refine ⟨s, s1, s2, s3, s4, s5, s6, fun st hst hlst => ⟨rfl, s2, s3, by rw [hst, s4], ?_, s6, rfl⟩⟩
   rw [s5, hlst]
   apply decide_eq_decide.mpr
   constructor
@@ -205,7 +208,7 @@ theorem repair_task_never_panics (env : Nat → Content) (cap : Nat) (evs : List
       StoreInv cap (run env cap σ evs).1.store := run_no_panic env cap evs σ hk hs
 
 
-/-! ### 4. fix D26; what is left of the hypothesis `Admissible` is necessary; non-vacuity -/
+/-! ### 4. fixes D26 and D15b; what is left of the hypothesis `Admissible` is typing only; non-vacuity -/
 
 /-- the two-slice block of `Props/C13.lean` (slot 5, parent (3, #7)) is a correct leader's block -/
 theorem exB_wf : exB.WF exEnv 3 :=
@@ -288,20 +291,52 @@ theorem last_marker_would_poison :
       exBid.hash (exB.shred 1 0)).2.1 = .err .equivocation := by
   decide +kernel
 
-/-- **`Admissible` cannot be dropped — data/coding tag (consequence of the known finding D15).** Same
-    schedule with a genuine shred of a *correct* leader whose unauthenticated tag was flipped: it passes
-    validation, is stored, every later `deshred` of slice 0 fails with `InvalidLayout`; nothing is
-    outstanding, the block is not stored, and the correct leader's slot is flagged. -/
-theorem derail_by_tag :
-    Req.shred exBid 0 0 ∉ (run exEnv 3 ⟨RepairSt.init, []⟩ ((schedWith evilTag).take 4)).1.st.outstanding ∧
+/-- `add_shred_from_repair` of the pinned snapshot (before the D15 `fix:`): `addShredCore`, no type check -/
+def addRepairOld (env : Nat → Content) (sd : SlotData) (h : H) (s : Shred) : SlotData × AddRes × List Event :=
+  let br := addShredCore env ((repGet sd.rep h).getD (BlockData.new sd.dis.cap sd.dis.slot)) s
+  let p := fileRepair sd h br.1 br.2
+  flagIfBad p.1 p.2
+
+/-- the pinned blockstore fed the type-flipped shred (0, 0) and then the genuine shreds (0, 1) … (0, k) -/
+def oldAfterFlip (k : Nat) : SlotData × AddRes × List Event :=
+  ((List.range k).map (fun j => exB.shred 0 (j + 1))).foldl (fun acc s => addRepairOld exEnv acc.1 exBid.hash s)
+    (addRepairOld exEnv (SlotData.new 3 5) exBid.hash { exB.shred 0 0 with ty := false })
+
+/-- **The defect D15b, on the pinned definitions** (was `derail_by_tag`, the witness that `Admissible` had to
+    exclude flipped tags): the pinned requester had no check between the signature and `add_shred_from_repair` (the
+    fixed `handle_response` differs from it only by the new check), so the genuine shred (0, 0) of a *correct* leader
+    with its unauthenticated data/coding type flipped by the responder was handed to the blockstore - and its request
+    removed. The pinned blockstore stores it; the next shred of slice 0 makes `deshred` fail on the layout (the
+    layout check precedes the count): `InvalidShred`, the correct leader's slot is flagged, `InvalidBlock` is sent,
+    every further shred is `InvalidShred` and the block is never completed in that spot. -/
+theorem derail_by_tag_old :
+    (addRepairOld exEnv (SlotData.new 3 5) exBid.hash { exB.shred 0 0 with ty := false }).2.1 = .ev .firstShred ∧
+    (oldAfterFlip 1).2 = (.err .invalidShred, [.invalidBlock]) ∧ (oldAfterFlip 1).1.misbehaved = true ∧
+    (oldAfterFlip 31).2 = (.err .invalidShred, []) ∧
+    getBlock (oldAfterFlip 63).1 exBid.hash = none := by
+  decide +kernel
+
+/-- **Fix D15b — a flipped data/coding type no longer derails the repair** (the schedule of the old witness
+    `derail_by_tag`): all events but one are the holder's answers, and a hostile peer answers `Shred(id, 0, 0)` with
+    the genuine shred whose type it flipped. The response is dropped: the request is still outstanding after it, that
+    step stores and announces nothing, and at the end of the very same schedule nothing is outstanding, the block is
+    stored under its id, announced exactly once, no step panicked and the correct leader is not flagged. The
+    blockstore itself would also have ignored the shred (`WrongType`). -/
+theorem tag_no_longer_derails :
+    Req.shred exBid 0 0 ∈ (run exEnv 3 ⟨RepairSt.init, []⟩ ((schedWith evilTag).take 4)).1.st.outstanding ∧
+    (run exEnv 3 ⟨RepairSt.init, []⟩ ((schedWith evilTag).take 4)).2.getLast? = some {} ∧
     (run exEnv 3 ⟨RepairSt.init, []⟩ (schedWith evilTag)).1.st.outstanding = [] ∧
-    getBlock (storeGet 3 (run exEnv 3 ⟨RepairSt.init, []⟩ (schedWith evilTag)).1.store 5) exBid.hash = none ∧
-    (storeGet 3 (run exEnv 3 ⟨RepairSt.init, []⟩ (schedWith evilTag)).1.store 5).misbehaved = true := by
+    getBlock (storeGet 3 (run exEnv 3 ⟨RepairSt.init, []⟩ (schedWith evilTag)).1.store 5) exBid.hash = some exB.block ∧
+    ((run exEnv 3 ⟨RepairSt.init, []⟩ (schedWith evilTag)).2.filter
+      (fun o => decide (o.poolAdd = some (exBid, exB.fparent)))).length = 1 ∧
+    (run exEnv 3 ⟨RepairSt.init, []⟩ (schedWith evilTag)).2.all (fun o => !o.panic) = true ∧
+    (storeGet 3 (run exEnv 3 ⟨RepairSt.init, []⟩ (schedWith evilTag)).1.store 5).misbehaved = false ∧
+    (addRepair exEnv (SlotData.new 3 5) exBid.hash { exB.shred 0 0 with ty := false }).2 = (.err .wrongType, []) := by
   decide +kernel
 
 /-- What `Admissible` excludes and what it does not: the shred with the other last-slice marker is
-    admissible (the code rejects it, nothing needs to be assumed about it); the flipped tag is exactly
-    what is still excluded; the holder's answers are admissible (`honest_step`). -/
+    admissible (the code rejects it, nothing needs to be assumed about it); so is the flipped data/coding type
+    (`evilTag_admissible`, since the D15b fix); the holder's answers are admissible (`honest_step`). -/
 theorem evilLast_admissible : Admissible exB evilLast ∧ Admissible exB evilNotLast := by
   constructor
   · intro _ _ _ _ _ h
@@ -309,10 +344,9 @@ theorem evilLast_admissible : Admissible exB evilLast ∧ Admissible exB evilNot
   · intro _ _ _ _ _ h
     simp [HBlock.shred, HBlock.isLast, exB] at h
 
-theorem evilTag_not_admissible : ¬ Admissible exB evilTag := by
-  intro h
-  have := (h rfl rfl rfl rfl rfl rfl).2
-  simp [HBlock.shred] at this
+/-- nothing is assumed about the data/coding type any more: the flipped shred is an admissible event -/
+theorem evilTag_admissible : Admissible exB evilTag := by
+  intro _ _ _ _ _ _; rfl
 
 /-- The size-class part of `Admissible` is a typing constraint of the model's encoding: `sz` abstracts
     the payload length, and the payload of a shred is what its Merkle path to the slice root
@@ -327,7 +361,7 @@ theorem size_class_witness :
     getBlock (storeGet 3 (run exEnv 3 ⟨RepairSt.init, []⟩ (schedWith evilSz)).1.store 5) exBid.hash = none := by
   refine ⟨?_, by decide +kernel⟩
   intro h
-  have := (h rfl rfl rfl rfl rfl rfl).1
+  have := h rfl rfl rfl rfl rfl rfl
   simp [HBlock.shred, exB] at this
 
 /-- The `root ≠ 0` part of `Admissible` is a typing constraint of the model's encoding, not an
@@ -348,7 +382,7 @@ theorem exHolder_holds : Holds exB 3 exHolder := by
     rcases hs with ⟨j, hj, rfl⟩ | ⟨j, hj, rfl⟩
     · exact ⟨by simp [HBlock.shred, exB], by simp only [HBlock.shred, total_shreds_eq]; omega, rfl⟩
     · exact ⟨by simp [HBlock.shred, exB], by simp only [HBlock.shred, total_shreds_eq]; omega, rfl⟩
-  have hgood := (honest_never_flagged exB exEnv 3 exB_wf (SlotData.new 3 5) ⟨rfl, good_new exB 3⟩ _ hhon).1
+  have hgood := (honest_never_flagged_typed exB exEnv 3 exB_wf (SlotData.new 3 5) ⟨rfl, good_new exB 3⟩ _ hhon).1
   have hc : exHolder.dis.completed = some exB.block := by decide +kernel
   refine ⟨runDissem_sinv exEnv _ _ (sinv_new 3 5), exHolder.dis, ?_, hgood.2, by rw [hc]; rfl⟩
   unfold blockData
